@@ -1265,6 +1265,39 @@ pub fn coeff_params(rng: &mut Rng) -> (f64, idsp::iir::Shape<f64>, i64, f64, f64
     (f0, shape, sk, sv, gain, shelf)
 }
 
+/// apply the builder's setters in a random order (shape before or after frequency / shelf, frequency re-tuned):
+/// the result must depend only on the final parameter values
+pub fn coeff_setup(rng: &mut Rng, f: &mut idsp::iir::Filter<f64>, w0: f64, shape: idsp::iir::Shape<f64>, gain: f64, shelf: f64) {
+    let mut order: [u8; 4] = [0, 1, 2, 3];
+    for i in (1..4).rev() {
+        let j = rng.below(i as u64 + 1) as usize;
+        order.swap(i, j);
+    }
+    if rng.chance(1, 3) {
+        // a previous tuning that is overwritten below
+        f.angular_critical_frequency(w0 * 0.37).shelf(shelf * 3.0).gain(-gain);
+        f.set_shape(match shape {
+            idsp::iir::Shape::Q(v) => idsp::iir::Shape::Bandwidth(v),
+            idsp::iir::Shape::Bandwidth(v) => idsp::iir::Shape::Slope(v.min(0.9)),
+            idsp::iir::Shape::Slope(v) => idsp::iir::Shape::Q(v),
+        });
+    }
+    for o in order {
+        match o {
+            0 => { f.angular_critical_frequency(w0); }
+            1 => { f.gain(gain); }
+            2 => { f.shelf(shelf); }
+            _ => {
+                match shape {
+                    idsp::iir::Shape::Q(v) => { if rng.chance(1, 2) { f.q(v); } else { f.set_shape(shape); } }
+                    idsp::iir::Shape::Bandwidth(v) => { if rng.chance(1, 2) { f.bandwidth(v); } else { f.set_shape(shape); } }
+                    idsp::iir::Shape::Slope(v) => { if rng.chance(1, 2) { f.shelf_slope(v); } else { f.set_shape(shape); } }
+                }
+            }
+        }
+    }
+}
+
 pub fn coeff_build(f: &idsp::iir::Filter<f64>, typ: u64) -> [[f64; 3]; 2] {
     match typ {
         0 => f.lowpass(),
@@ -1285,7 +1318,7 @@ fn fam_coeff(rng: &mut Rng, n: usize, out: &mut Out) {
         let w0 = std::f64::consts::TAU * f0;
         let typ = rng.below(9);
         let mut f = idsp::iir::Filter::<f64>::default();
-        f.angular_critical_frequency(w0).gain(gain).shelf(shelf).set_shape(shape);
+        coeff_setup(rng, &mut f, w0, shape, gain, shelf);
         let ba = coeff_build(&f, typ);
         let flat = [ba[0][0], ba[0][1], ba[0][2], ba[1][0], ba[1][1], ba[1][2]];
         out.emit(
